@@ -204,3 +204,22 @@ MUTANTS += [
          old="        if isinstance(value, (list, tuple)):\n            return list([JsonUtil.sanitize(element) for element in value])",
          new="        if cls == list and all(e.__class__ in (int, str) for e in value):\n            return value\n        if isinstance(value, (list, tuple)):\n            return list([JsonUtil.sanitize(element) for element in value])"),
 ]
+
+MUTANTS += [
+    # ---- C15
+    dict(name='c15_clean_deletes_before_name_check', props=['C15'], file=FB,
+         old="        cache = Cache.read_immutable(cache_filename)\n        if build_name is not None and cache.build_name() != build_name:\n            raise RuntimeError(\n                'The cache file was created for the build named {:s}, which '\n                'is different from the specified build name {:s}'.format(\n                    cache.build_name(), build_name))\n\n        for filename in cache.created_files():\n            FileBuilder._try_to_remove_file(filename)\n",
+         new="        cache = Cache.read_immutable(cache_filename)\n        for filename in cache.created_files():\n            FileBuilder._try_to_remove_file(filename)\n        if build_name is not None and cache.build_name() != build_name:\n            raise RuntimeError(\n                'The cache file was created for the build named {:s}, which '\n                'is different from the specified build name {:s}'.format(\n                    cache.build_name(), build_name))\n\n"),
+    dict(name='c15_make_cache_dirs_before_reading_cache', props=['C15'], file=FB,
+         old="        sanitized_versions = FileBuilder._sanitize_versions(versions)\n\n        if os.path.isfile(cache_filename):",
+         new="        sanitized_versions = FileBuilder._sanitize_versions(versions)\n        os.makedirs(os.path.join(os.path.dirname(cache_filename), '.fb_lock'), exist_ok=True)\n\n        if os.path.isfile(cache_filename):"),
+    dict(name='c15_unreadable_cache_treated_as_first_build', props=['C15'], file=FB,
+         old="        if os.path.isfile(cache_filename):\n            old_cache = Cache.read_immutable(cache_filename)\n            if old_cache.build_name() != build_name:",
+         new="        old_cache = None\n        if os.path.isfile(cache_filename):\n            try:\n                old_cache = Cache.read_immutable(cache_filename)\n            except RuntimeError:\n                os.remove(cache_filename)\n        if old_cache is not None:\n            if old_cache.build_name() != build_name:"),
+    dict(name='c15_newer_version_accepted', props=['C15'], file=CACHE,
+         old="        if not JsonUtil.is_equal(\n                cache_json['cacheFileVersion'], Cache._CACHE_FILE_VERSION):",
+         new="        if False:"),
+    dict(name='c15_build_name_checked_after_build', props=['C15'], file=FB,
+         old="            if old_cache.build_name() != build_name:\n                raise RuntimeError(\n                    'The cache file was created for the build named {:s}, '\n                    'which is different from the specified build name '\n                    '{:s}'.format(old_cache.build_name(), build_name))\n        elif",
+         new="            pass\n        elif"),
+]
